@@ -487,6 +487,24 @@ func (la *lockAnalysis) isRoot(fn *ssa.Function) bool {
 	if n == nil || n.Obj().Exported() {
 		return true
 	}
+	// a compiler-made wrapper (promoted method of an embedded field) of an unexported type is
+	// callable from outside only through an interface: not at all if no value of the type is ever
+	// converted to one
+	if fn.Synthetic != "" {
+		boxed := false
+		for _, f := range la.w.ModFuncs {
+			allInstrs(f, func(in ssa.Instruction) {
+				if mi, ok := in.(*ssa.MakeInterface); ok {
+					if xn := namedOf(mi.X.Type()); xn != nil && xn.Obj() == n.Obj() {
+						boxed = true
+					}
+				}
+			})
+		}
+		if !boxed {
+			return false
+		}
+	}
 	// exported method of an unexported type: enterable from outside if the type is handed
 	// out by an exported function, or if the call graph has a caller outside the module that
 	// is not one of the synchronous sort helpers.
